@@ -33,13 +33,16 @@ pub enum KindId {
     OVecBox,
     OArrayBox,
     IterBox,
+    OVecZst,
+    OArrayZst,
+    SliceZst,
     /// range with bounds taken from the C16 grid: the `len` of a unit encodes (start index, end index)
     RangeX,
 }
 
 pub const GRID: [usize; 9] = [0, 1, 7, usize::MAX / 2 - 1, usize::MAX / 2, usize::MAX / 2 + 1, usize::MAX - 2, usize::MAX - 1, usize::MAX];
 
-pub const ALL_KINDS: [KindId; 27] = [
+pub const ALL_KINDS: [KindId; 30] = [
     KindId::Slice,
     KindId::VecRef,
     KindId::ArrayRef,
@@ -66,6 +69,9 @@ pub const ALL_KINDS: [KindId; 27] = [
     KindId::OVecBox,
     KindId::OArrayBox,
     KindId::IterBox,
+    KindId::OVecZst,
+    KindId::OArrayZst,
+    KindId::SliceZst,
     KindId::RangeX,
 ];
 
@@ -99,16 +105,20 @@ impl KindId {
             OVecBox => "vec_box",
             OArrayBox => "array_box",
             IterBox => "iter_box",
+            OVecZst => "vec_zst",
+            OArrayZst => "array_zst",
+            SliceZst => "slice_zst",
             RangeX => "range_grid",
         };
         KindInfo {
             name,
             known: !matches!(self, IterInexact | IterUnk | IterNonFused | CopiedIter | IterRefUnk),
-            consuming: matches!(self, OVec | OArray | IterExact | IterInexact | IterUnk | IterNonFused | OVec24 | OArray24 | Iter24 | OVecBox | OArrayBox | IterBox),
+            consuming: matches!(self, OVec | OArray | IterExact | IterInexact | IterUnk | IterNonFused | OVec24 | OArray24 | Iter24 | OVecBox | OArrayBox | IterBox | OVecZst | OArrayZst),
             by_ref: matches!(self, Slice | VecRef | ArrayRef | IterRef | IterRefUnk),
             clones: matches!(self, ClonedSlice | ClonedVecRef | ClonedArrayRef | ClonedIter),
             adaptor: matches!(self, ClonedSlice | CopiedSlice | ClonedVecRef | ClonedArrayRef | ClonedIter | CopiedIter),
             nonfused: matches!(self, IterNonFused),
+            zst: matches!(self, OVecZst | OArrayZst | SliceZst),
             wrapper: matches!(self, IterExact | IterInexact | IterUnk | IterNonFused | IterRef | IterRefUnk | ClonedIter | CopiedIter | Iter24 | IterBox),
             keymap: match self {
                 Range0 => KeyMap::Range(0),
@@ -492,6 +502,37 @@ pub fn exec_one(kind: KindId, mode: Mode, env: &mut Env, hist: &[SOp], term: Ter
             end_checks(env, false);
         }
         RangeX => unreachable!(),
+        OVecZst => {
+            let src: std::vec::Vec<Zst> = subj(|| (0..len).map(|_| Zst).collect());
+            let it = subj(|| src.into_con_iter());
+            run_history(env, it, hist, term);
+            end_checks(env, false);
+        }
+        OArrayZst => {
+            macro_rules! goz {
+                ($n:literal) => {{
+                    let a: [Zst; $n] = std::array::from_fn(|_| Zst);
+                    let it = subj(|| IntoConcurrentIter::into_con_iter(a));
+                    run_history(env, it, hist, term);
+                    end_checks(env, false);
+                }};
+            }
+            match len {
+                0 => goz!(0),
+                1 => goz!(1),
+                2 => goz!(2),
+                3 => goz!(3),
+                4 => goz!(4),
+                5 => goz!(5),
+                6 => goz!(6),
+                _ => panic!("array kinds support len 0..=6"),
+            }
+        }
+        SliceZst => {
+            let src: std::vec::Vec<Zst> = subj(|| (0..len).map(|_| Zst).collect());
+            run_ref(env, src.as_slice().into_con_iter(), hist, term);
+            subj(|| drop(src));
+        }
         OVecBox => {
             let src = mkb(len);
             let it = subj(|| src.into_con_iter());
